@@ -84,7 +84,8 @@ def parse_model(reply):
             n = s(); st = t[i]; i += 1
             if st == "ok":
                 cmds = lst(); ex = lst()
-                tasks[n] = dict(status="ok", cmd=cmds, export=list(zip(ex[0::2], ex[1::2])))
+                wd = None if t[i] == "-" else s(); i += (1 if wd is None else 0)
+                tasks[n] = dict(status="ok", cmd=cmds, export=list(zip(ex[0::2], ex[1::2])), workdir=wd)
             else:
                 tasks[n] = dict(status=st, cmd=[], export=[])
         builds.append(dict(builder=builder, app=app, out=out, modules=mods, order=order, tasks=tasks))
